@@ -103,12 +103,14 @@ func (c *rawConn) close() {
 	}
 }
 
+var pollBuf = make([]byte, 1<<16)
+
 // poll moves everything the server has written so far into the parsed message list.
 func (c *rawConn) poll() {
 	if c.closed {
 		return
 	}
-	buf := make([]byte, 1<<16)
+	buf := pollBuf
 	for !c.eof {
 		n, err := c.rw.Read(buf)
 		c.rx = append(c.rx, buf[:n]...)
@@ -338,7 +340,7 @@ func (g *good) do(method, url string, hdrs ...Hdr) bool {
 	g.cseq++
 	s := req(method, method, url, g.cseq, hdrs...)
 	g.c.write(s.render(g.sid))
-	if !sysx.Settle() {
+	if !settle() {
 		return g.fail("%s: library not quiescent (hang detector)", method)
 	}
 	g.c.poll()
@@ -379,7 +381,7 @@ func (g *good) packet(want bool) bool {
 	if err := g.app.Stream.WritePacketRTP(g.app.Stream.Desc.Medias[0], pkt); err != nil {
 		return g.fail("WritePacketRTP: %v", err)
 	}
-	if !sysx.Settle() {
+	if !settle() {
 		return g.fail("packet: library not quiescent (hang detector)")
 	}
 	g.c.poll()
@@ -502,7 +504,14 @@ func execute(cs Case) (res Result) {
 			trunc, truncEnd = d.Pos, d.Val
 		}
 	}
-	baseline := sysx.LibGoroutines()
+	baseline := libGoroutines()
+	t0 := time.Now()
+	phase := func(name string) {
+		if debug {
+			fmt.Fprintf(os.Stderr, "  phase %-10s %v\n", name, time.Since(t0))
+			t0 = time.Now()
+		}
+	}
 	env := sysx.NewEnv()
 	var tlsConf *tls.Config
 	if cs.Cfg.TLS {
@@ -553,7 +562,6 @@ func execute(cs Case) (res Result) {
 		}
 		return res
 	}
-	settle := func() bool { return sysx.Settle() }
 	full := cs.Cfg.Handlers == "all"
 
 	// ---- the attack, step by step; the second connection advances one stage after every attack step
@@ -562,7 +570,7 @@ func execute(cs Case) (res Result) {
 		if c, ok := conns[i]; ok {
 			return c
 		}
-		c, err := dialRaw(env, fmt.Sprint("hostile", i), cs.Cfg.TLS)
+		c, err := dialRaw(env, fmt.Sprint("hostile", i), cs.Cfg.TLS && !plaintext)
 		if err != nil {
 			panic(fmt.Sprint("cannot dial: ", err))
 		}
@@ -576,7 +584,19 @@ func execute(cs Case) (res Result) {
 			return failf("harness-dial", "%v", err)
 		}
 	}
-	sid := dummySID
+	sids := map[int]string{}
+	sidOf := func(g int) string {
+		if v, ok := sids[g]; ok {
+			return v
+		}
+		return dummySID
+	}
+	plaintext := false
+	for _, d := range cs.Devs {
+		if d.Op == "no-tls" {
+			plaintext = true
+		}
+	}
 	offset := 0 // bytes of the stream written so far
 	stop := false
 	var pending []byte
@@ -592,7 +612,17 @@ func execute(cs Case) (res Result) {
 			}
 			continue
 		}
-		b := st.render(sid)
+		if st.Kind == "close" {
+			if c, ok := conns[st.Conn]; ok {
+				c.close()
+			}
+			res.Sent++
+			if !settle() {
+				return failf("hang", "library not quiescent after closing connection %d at step %d", st.Conn, i)
+			}
+			continue
+		}
+		b := st.render(sidOf(st.Grp))
 		if trunc >= 0 && offset+len(b) > trunc {
 			b = b[:trunc-offset]
 			stop = true
@@ -621,7 +651,7 @@ func execute(cs Case) (res Result) {
 					if v, ok := m.Hdr["session"]; ok {
 						id, _, _ := strings.Cut(v, ";")
 						if len(id) == len(dummySID) {
-							sid = id
+							sids[st.Grp] = id
 						}
 					}
 				}
@@ -649,6 +679,7 @@ func execute(cs Case) (res Result) {
 		// cannot happen for offsets enumerated from the base conversation; guard for replays
 		trunc = offset
 	}
+	phase("attack")
 	for second != nil && !second.ready() {
 		if !second.step() {
 			return failf("second-connection-fails", "%s | after the attack", second.Err)
@@ -667,14 +698,14 @@ func execute(cs Case) (res Result) {
 	}
 	total := srv.IdleTimeout + srv.ReadTimeout + srv.WriteTimeout + 5*time.Second
 	for k := 0; k < 4; k++ {
-		env.Advance(total / 4)
-		if !settle() {
+		if !advance(total / 4) {
 			return failf("hang", "library not quiescent (hang detector) while virtual time advances")
 		}
 		if second != nil && !second.keepalive() {
 			return failf("second-connection-fails", "%s | %d/4 of the timeouts elapsed", second.Err, k+1)
 		}
 	}
+	phase("advance")
 	// (2) answered or closed
 	for _, k := range sortedKeys(conns) {
 		c := conns[k]
@@ -688,6 +719,7 @@ func execute(cs Case) (res Result) {
 	if second != nil && !second.finish() {
 		return failf("second-connection-fails", "%s | at the end", second.Err)
 	}
+	phase("closed?")
 	// (3) a fresh well-behaved conversation
 	fresh, err := newGood(env, app, "fresh", full, cs.Cfg.TLS)
 	if err != nil {
@@ -710,6 +742,7 @@ func execute(cs Case) (res Result) {
 	if !settle() {
 		return failf("hang", "library not quiescent (hang detector) after the fresh conversation")
 	}
+	phase("fresh")
 	// (4) everything released
 	opens, closes, sopen, sclose := 0, 0, 0, 0
 	for _, e := range env.Log.Snapshot() {
@@ -748,9 +781,10 @@ func execute(cs Case) (res Result) {
 	if m := shutdown(); m != "" {
 		return failf("close-hangs", "%s", m)
 	}
+	phase("shutdown")
 	var left []string
 	sysx.WaitFor(func() bool {
-		left = multisetDiff(sysx.LibGoroutines(), baseline)
+		left = multisetDiff(libGoroutines(), baseline)
 		return len(left) == 0
 	})
 	if len(left) > 0 {
@@ -759,6 +793,7 @@ func execute(cs Case) (res Result) {
 	if o := env.Net.Open(); len(o) > 0 {
 		return failf("socket-leak", "open after Server.Close: %v", o)
 	}
+	phase("leakprobe")
 	return res
 }
 
